@@ -62,9 +62,11 @@ def run(prog, tier):
     so = scratch_owned_obligations(prog, "scratch-owned", [ci],
                                    "the forward model / data kept by the inverter is overwritten by one evaluation: every later "
                                    "posterior and evidence is computed from the damaged array (and so is the caller's own array)")
+    from .gpm import routing_obligations
+    so = so + routing_obligations(prog, "GpLinearInverter", "hyperparameter-routing", REL)
     obs.extend(so)
     if any(not o.ok for o in so):
-        return obs, {}, {"explanation": "kept arrays are consumed as scratch; formula rules not evaluated"}
+        return obs, {}, {"explanation": "kept arrays are consumed as scratch / hyper-parameters mis-routed; formula rules not evaluated"}
     A, y, Si, S = (M.atom(*ATOMS[k][:2]) for k in ("self.A", "self.y", "self.inv_sigma", "self.sigma"))
     ncf.SYMMETRIC.update({"Si", "S", "K", "dK"})
     K, m = M.atom("K", 2, True), M.atom("m", 1)
@@ -175,6 +177,23 @@ def run(prog, tier):
             why = f"sigma = diag({a}), inv_sigma = diag({b})"
     except (KeyError, Unsupported) as e:
         why = str(e)
+    # ... of the y_err the caller passed: the constructor re-binds its data arguments only to array conversions of themselves
+    for var in ("y_err", "y", "y_cov", "model_matrix"):
+        for st_ in ast.walk(init):
+            tg = st_.targets[0] if isinstance(st_, ast.Assign) and len(st_.targets) == 1 else st_.target if isinstance(st_, ast.AugAssign) else None
+            if tg is None or U(tg) != var:
+                continue
+            e = st_.value if isinstance(st_, ast.Assign) else None
+            while e is not None:
+                if isinstance(e, ast.Call) and isinstance(e.func, ast.Attribute) and e.func.attr in ("squeeze", "copy", "flatten", "ravel") and not e.args:
+                    e = e.func.value
+                elif isinstance(e, ast.Call) and U(e.func) in ("array", "asarray", "atleast_1d", "asanyarray") and len(e.args) == 1:
+                    e = e.args[0]
+                else:
+                    break
+            if not (isinstance(e, ast.Name) and e.id == var):
+                ok = False
+                why += f"; line {st_.lineno}: `{U(st_)[:90]}` alters the caller's `{var}` before it is used"
     obs.append(struct_ob("noise-matrices", qual(ci, init), ok,
                          "S must be diag(y_err^2) and Si its elementwise inverse on the diagonal: " + why, REL, init.lineno, tier="F"))
     # slices: mean first, then covariance; labels / bounds in the same order
